@@ -11,7 +11,7 @@ for d in sorted(glob.glob('/verif/seeded/*/')):
     sigs = []
     for c, r in m['checks_run_quick_tier'].items():
         if r['exit'] == 1: sigs.append(f"{c}: " + ', '.join(r['signatures'][:3]))
-    caught = ', '.join(m['caught_by']) or '**missed**'
+    caught = ', '.join(m['caught_by']) or ('obsolete: no longer breaks the property (see OBSOLETE.txt)' if m.get('obsolete') else '**missed**')
     if m.get('missed_at_first'):
         caught += ' (missed at first, see below)'
     rows.append((m['id'], m['breaks_property'], first, caught, '; '.join(sigs), m['applies_to_repo_head']))
